@@ -150,7 +150,7 @@ func init() {
 		conserve.LocWhole(p, r)
 		conserve.RegionDelegate(p, r)
 		conserve.RecordState(p, r, []string{"extract"}, 1)
-		r.Rule("DEDUP-EXACT", "a membership helper of package main (shape func([]T, T) bool) decides membership by reflect.DeepEqual or == of the element and the candidate, nothing coarser (gts extract drops repeated regions with it: two different regions must both be extracted)", 1)
+		r.Rule("DEDUP-EXACT", "a membership helper of package main (shape func([]T, T) bool) decides membership by reflect.DeepEqual or == of the element and the candidate, nothing coarser (gts extract drops repeated regions with it: two different regions must both be extracted)", 0)
 		conserve.DedupExact(p, r)
 	})
 	register("C17", false, func(p *core.Prog, r *core.Report, tier string) {
